@@ -94,10 +94,12 @@ func (pq *priorityQueue) Reverse() PriorityQueue {
     switch pq.queue.(type) {
     case *minPriorityQueue:
         queue := maxPriorityQueue(*pq.queue.(*minPriorityQueue))
+        queue = append(maxPriorityQueue(nil), queue...)
 
         return initializePriorityQueue(&queue)
     case *maxPriorityQueue:
         queue := minPriorityQueue(*pq.queue.(*maxPriorityQueue))
+        queue = append(minPriorityQueue(nil), queue...)
 
         return initializePriorityQueue(&queue)
     default:
